@@ -436,5 +436,5 @@ Spec == Init /\ [][Next]_vars
 NoViolation == obs.viol = {}
 TypeOK == /\ pc \in {"idle", "srv", "content", "dot", "ret", "fin"}
           /\ nf \in 0..MaxFaults
-          /\ Len(w.stream) <= 3
+          /\ Len(w.stream) <= MaxRcpt + 4
 =============================================================================
